@@ -386,7 +386,7 @@ class C08(Spec):
         "Earverif.C08." + t
         for t in ("fmt5_parse_fmt5", "parse_fmt5_close", "parse_fmt5_exact_of_5dec", "parse_fmt5_idempotent",
                   "fmt07_5_fin", "seconds_roundtrip", "seconds_exact_of_5dec", "floatCodec_refines",
-                  "float_leaf_excluded_points")) + tuple(
+                  "secondsCodec_refines", "grid_model_excluded_points", "float_leaf_excluded_points")) + tuple(
         "Earverif.FloatText." + t
         for t in ("rhe_nearest", "rhe_tie_even", "rhe_of_le_half", "rn53_nearest", "rn53_idem_pos", "core", "core_range",
                   "roundtrip_master", "grid_core", "parseFloat_text", "parseFraction_numText"))
@@ -451,7 +451,14 @@ class C08(Spec):
         "float leaf: fmt5_parse_fmt5 / parse_fmt5_close / parse_fmt5_idempotent hold for every finite binary64 number "
         "(IsDouble: the magnitude is its own correctly rounded binary64 value; both signs, -0.0, subnormals, the largest "
         "double) with no magnitude bound; parse_fmt5_exact_of_5dec / seconds_exact_of_5dec / floatCodec_refines need the "
-        "decimal below 2^36 ~ 6.9e10 (sharp: float_leaf_excluded_points, 2^36 + 0.00001 is printed as ...00002); "
+        "decimal below 2^36 ~ 6.9e10 (k = 2^36*10^5 itself still satisfies the conclusion; first failing point "
+        "k = 2^36*10^5 + 1, float_leaf_excluded_points: roundHalfEven(x*10^5) of the nearest double is ...00002); "
+        "floatCodec_refines / secondsCodec_refines are ONE-LEAF bridges between the printable-grid model (Leaf.num k, "
+        "dumpsNum / loadsNum) and the real text / doubles / Fractions; they are not composed with the class and "
+        "document theorems, which are over Leaf.num (k : Int) with no bound on k and with loadsNum = inverse of "
+        "dumpsNum on its image only (not float(): 0.5, 1, 1e0 are outside; -0.00000 is read as 0): "
+        "grid_model_excluded_points; -0.0 and gain = -1e-7 (written -0.00000) have no grid leaf and are recorded "
+        "from the real code as excluded points; "
         "seconds_roundtrip needs 0 <= t and float(t) finite (excluded point, kernel-checked and run on the real code: "
         "a negative interpolationLength that rounds to zero is written -0.00000, read as Fraction(0), written 0.00000); "
         "inf / nan are printed as inf / nan and read back, but are not finite numbers (outside the theorems); strings "
@@ -722,6 +729,15 @@ class C08(Spec):
             ctx.count("excluded-point:SecondsType-negative-rounding-to-zero=%s->%s" % (s1, s2))
         except Exception as e:
             ctx.count("excluded-point:SecondsType-negative-rounding-to-zero=raises-" + type(e).__name__)
+        # excluded points of the printable-grid model (theorem grid_model_excluded_points): -0.0 and -1e-7 are
+        # written -0.00000 and read back as -0.0 by the real FloatType (the model reads the integer 0)
+        for name, x in (("negative-zero", -0.0), ("minus-1e-7", -1e-7)):
+            try:
+                s1 = ft.dumps_func(x)
+                y = ft.loads_func(s1)
+                ctx.count("excluded-point:FloatType-%s=%s->%r->%s" % (name, s1, y, ft.dumps_func(y)))
+            except Exception as e:
+                ctx.count("excluded-point:FloatType-%s=raises-%s" % (name, type(e).__name__))
 
     # ---- leaf correspondence: times ------------------------------------------------------------
     def _corr_times(self, ctx, drv, rng, n):
@@ -1711,6 +1727,9 @@ class C08(Spec):
                          # equal "as printed"; a value that prints like the default is elided by the second generation)
                          ("off-grid-float-gain-0.123456789", objects_block(gain=0.123456789)),
                          ("off-grid-float-printing-like-default-width-1e-7", objects_block(width=1e-7)),
+                         # the text -0.00000 has no counterpart Leaf.num k (theorem grid_model_excluded_points)
+                         ("negative-zero-gain--0.0", objects_block(gain=-0.0)),
+                         ("negative-float-rounding-to-zero-gain--1e-7", objects_block(gain=-1e-7)),
                          ("negative-interpolationLength-rounding-to-zero",
                           objects_block(jumpPosition=JumpPosition(flag=True, interpolationLength=Fraction(-1, 10 ** 9)))),
                          ("empty-gainInteractionRange", empty_range), ("empty-positionInteractionRange", empty_pos_range),
@@ -1768,13 +1787,25 @@ REGISTRY = dict(
     "same bytes' needs of a float leaf; parse_fmt5_close — |parse(print x) - x| <= 0.5e-5 + (|x| + 0.5e-5) 2^-53 and "
     "<= 1e-5 ('numbers as printed to five decimals'; the rounding term is needed: 2^35 + 2^-16 comes back 2^-17 away); "
     "parse_fmt5_exact_of_5dec — the double nearest to a decimal k/10^5 < 2^36 is printed as exactly that decimal and "
-    "read back bit-identical (sharp: 2^36 + 0.00001 is printed ...00002); parse_fmt5_idempotent — the value read back "
+    "read back bit-identical (k = 2^36*10^5 itself still satisfies it; the first failing point is k + 1, whose nearest "
+    "double has roundHalfEven(x*10^5) = ...00002); parse_fmt5_idempotent — the value read back "
     "is reproduced by every further print / parse, unconditionally; fmt07_5_fin ('{:07.5f}' never pads a finite "
     "number); seconds_roundtrip / seconds_exact_of_5dec for non-negative Fractions (a negative value rounding to zero "
-    "is a kernel-checked excluded point: -0.00000 -> Fraction(0) -> 0.00000); floatCodec_refines — the printable-grid "
-    "float codec of the handler-table model (Leaf.num k, used by handlers_codec_roundtrip and every class theorem) "
-    "emits exactly the text of the real FloatType for the double nearest to k/10^5 and the real loads maps it back to "
-    "that double (|k|/10^5 < 2^36). NOT proved, only searched: lxml and the byte level of AXML (the tree is abstract), "
+    "is a kernel-checked excluded point: -0.00000 -> Fraction(0) -> 0.00000); floatCodec_refines — ONE LEAF: the "
+    "printable-grid float codec of the handler-table model (Leaf.num k, used by handlers_codec_roundtrip and every "
+    "class theorem) emits exactly the text of the real FloatType for the double nearest to k/10^5 and the real loads "
+    "maps it back to that double (|k|/10^5 < 2^36); secondsCodec_refines — ONE LEAF: jumpPosition "
+    "interpolationLength is modelled with dumpsNum / loadsNum while the real code is SecondsType: for 0 <= k, "
+    "k/10^5 < 2^36, '{:07.5f}'.format(float(Fraction(k, 10^5))) is exactly dumpsNum k and Fraction() of that text is "
+    "exactly k/10^5. These two bridges are NOT composed with the class / document theorems: C08_roundtrip_model and "
+    "every class theorem are statements over Leaf.num (k : Int) with NO bound on k in Valid / DocValid and with "
+    "loadsNum, the inverse of dumpsNum on its image only (not float()); grid_model_excluded_points (kernel-checked) "
+    "lists what the grid model cannot express or gets differently: the text -0.00000 (written for -0.0 and for "
+    "gain = -1e-7; float() keeps -0.0, the model reads 0, and no Leaf.num k prints it), the spellings 0.5 / 1 / 1e0 "
+    "(none for loadsNum), and the leaf 2^36*10^5 + 1, which the class theorems cover although '{:.5f}' of the nearest "
+    "double prints something else. NOT proved, only searched: the composition 'every float text of to_xml(document) "
+    "is fmt5 of a double and is read back as that double' (the leaf theorems applied at every num leaf of the "
+    "hand-written handlers), lxml and the byte level of AXML (the tree is abstract), "
     "attrs validators, documents with floats OFF the 1e-5 grid as a whole (leaf text is a fixed point, but a value "
     "that prints like a default, e.g. width 1e-7, is written once and elided by the second generation: recorded as "
     "excluded point) — covered by generated documents over every element class and optional attribute for both "
